@@ -213,6 +213,8 @@ TrBuilt ==
           ok' = [ok EXCEPT
                    \* C04 / C20: the built dispatcher executes exactly the builder's plan
                    !.built = @ /\ e.out = "ok" /\ e.lay = lay[e.b] /\ e.tl = tls[e.b],
+                   \* C18: build / build_async of whatever has been registered does not panic
+                   !.c18 = @ /\ e.out = "ok",
                    \* C10: reported maximum thread count = width of the widest stage
                    !.c10mt = @ /\ (e.parallel => e.maxthreads = MaxWidth(lay[e.b])),
                    \* C19: same number of placements as variant 0
